@@ -604,7 +604,12 @@ func runRich(o *hx.Opts, rnd *hx.Rand, res *hx.Result) {
 	n := o.Count(400, 15000)
 	for i := 0; i < n; i++ {
 		r := rnd.Fork(fmt.Sprintf("rich%d", i))
-		sc := genRich(r, i, int64(o.Seed)*100003+int64(i))
+		var sc *Scenario
+		if i%3 == 2 {
+			sc = genFocused(r, i, int64(o.Seed)*100003+int64(i))
+		} else {
+			sc = genRich(r, i, int64(o.Seed)*100003+int64(i))
+		}
 		sr := evaluate(o, sc, r.Fork("patterns"), res)
 		key, _ := json.Marshal(sc.Input)
 		res.Eval(string(key), nontrivialExec(sr.base))
@@ -620,6 +625,16 @@ func runRich(o *hx.Opts, rnd *hx.Rand, res *hx.Result) {
 			res.Dist("rich:first-call=" + sr.base.Calls[0].Outcome)
 			last := sr.base.Calls[len(sr.base.Calls)-1]
 			res.Dist("rich:final-status=" + last.Status)
+			okResumes := 0
+			for _, c := range sr.base.Calls[1:] {
+				if c.Outcome == "ok" {
+					okResumes++
+				}
+			}
+			res.Dist(fmt.Sprintf("rich:accepted-resumes=%d", okResumes))
+			if last.Sess != nil {
+				res.Dist(fmt.Sprintf("rich:runs=%d", min(len(last.Sess.Runs()), 6)))
+			}
 			if o.Verbose {
 				for _, c := range sr.base.Calls {
 					for _, e := range c.Events {
@@ -652,4 +667,137 @@ func summarizeExec(ex *Exec) []any {
 		out = append(out, map[string]any{"outcome": c.Outcome, "status": c.Status, "events": eventTypes(c.Events)})
 	}
 	return out
+}
+
+// ---- focused scenarios: several runs crossing several waits, with templates that read the related runs ------------
+
+var relatedTemplates = []string{
+	"@child", "@child.uuid", "@child.flow.name", "@child.flow", "@child.status", "@child.results", "@child.results.r0", "@child.results.r0.value", "@child.results.r0.category",
+	"@child.run.created_on", "@child.run.exited_on", "@child.run.status", "@child.contact.name", "@(json(child.results))", "@child.fields.age", "@child.urns.tel",
+	"@parent", "@parent.uuid", "@parent.flow.name", "@parent.flow", "@parent.status", "@parent.results", "@parent.results.r0", "@parent.results.r0.value", "@parent.results.r0.category",
+	"@parent.run.created_on", "@parent.run.exited_on", "@parent.run.status", "@parent.contact.name", "@(json(parent.results))", "@parent.fields.age", "@parent.urns.tel",
+	"@run", "@run.uuid", "@run.flow.name", "@run.status", "@run.results", "@run.results.r0", "@(count(run.path))", "@run.created_on", "@run.exited_on", "@run.path",
+	"@results", "@results.r0", "@results.r0.value", "@results.r1.category", "@results.r0.input", "@results.r0.created_on", "@results.r0.node_uuid", "@(json(results))",
+	"@node.visit_count", "@node.uuid", "@input.text", "@input", "@trigger.type", "@resume.type", "@contact.name", "@(count(contact.groups))", "@contact.last_seen_on",
+}
+
+func (g *richGen) rel() string {
+	if g.r.Chance(1, 6) {
+		return g.tpl()
+	}
+	return hx.Pick(g.r, relatedTemplates)
+}
+
+func (g *richGen) readers() []map[string]any {
+	r := g.r
+	out := []map[string]any{}
+	for k, n := 0, r.Range(1, 3); k < n; k++ {
+		switch r.Intn(4) {
+		case 0:
+			out = append(out, map[string]any{"type": "set_run_result", "name": hx.Pick(r, []string{"r1", "r2"}), "value": g.rel() + "|" + g.rel()})
+			g.feat["action:set_run_result"] = true
+		case 1:
+			out = append(out, map[string]any{"type": "set_contact_field", "field": map[string]any{"key": "gender", "name": "Gender"}, "value": g.rel()})
+			g.feat["action:set_contact_field"] = true
+		default:
+			out = append(out, map[string]any{"type": "send_msg", "text": g.rel() + " / " + g.rel() + " / " + g.rel()})
+			g.feat["action:send_msg"] = true
+		}
+	}
+	return out
+}
+
+// a flow: [writers (+ optional enter of the next flow)] -> (wait -> readers)* ; ids are flow*100+k
+func (g *richGen) focusedFlow(i, nflows int) map[string]any {
+	r := g.r
+	base := i * 100
+	var nodes []map[string]any
+	first := []map[string]any{}
+	if r.Chance(3, 4) {
+		first = append(first, map[string]any{"type": "set_run_result", "name": "r0", "value": fmt.Sprintf("v%d %s", i, g.rel()), "category": hx.Pick(r, []string{"Cat", "Dog"})})
+	}
+	enter := func() map[string]any {
+		m := map[string]any{"type": "enter_flow", "flow": flowRefJSON(i + 1)}
+		if r.Chance(1, 4) {
+			m["terminal"] = true
+		}
+		g.feat["action:enter_flow"] = true
+		return m
+	}
+	entered := false
+	if i < nflows && r.Chance(2, 3) {
+		first = append(first, enter())
+		entered = true
+	}
+	nsteps := r.Range(1, 3)
+	id := base + 1
+	nodes = append(nodes, actionNode(id, id+1, first...))
+	for k := 0; k < nsteps; k++ {
+		id++
+		if r.Chance(4, 5) {
+			nodes = append(nodes, waitNode(id, id+1))
+			id++
+		}
+		acts := g.readers()
+		if i < nflows && !entered && r.Chance(1, 2) {
+			acts = append(acts, enter())
+			entered = true
+		}
+		dest := id + 1
+		if k == nsteps-1 {
+			dest = 0
+		}
+		nodes = append(nodes, actionNode(id, dest, acts...))
+	}
+	return flowDef(i, nodes...)
+}
+
+func genFocused(r *hx.Rand, idx int, seed int64) *Scenario {
+	g := &richGen{r: r, feat: map[string]bool{}}
+	g.nflows = r.Range(2, 3)
+	fl := []any{}
+	for i := 1; i <= g.nflows; i++ {
+		fl = append(fl, g.focusedFlow(i, g.nflows))
+	}
+	assetsJSON := richAssets(fl)
+	contact := g.contact()
+	trig := g.trigger(contact)
+	trigJSON, _ := json.Marshal(trig)
+	nres := r.Range(2, 6)
+	resJSON := make([]json.RawMessage, nres)
+	for i := range resJSON {
+		m := g.resume(i, contact)
+		if m["type"] != "msg" && r.Chance(2, 3) {
+			m = map[string]any{"type": "msg", "resumed_on": "2020-01-01T13:00:00.000000000-00:00", "msg": msgJSON(r, i+1)}
+		}
+		resJSON[i], _ = json.Marshal(m)
+	}
+	tags := []string{"rich", "focused"}
+	for k := range g.feat {
+		tags = append(tags, k)
+	}
+	return &Scenario{
+		Name: fmt.Sprintf("rich:%d(focused)", idx),
+		Seed: seed,
+		LoadAssets: func() (flows.SessionAssets, error) {
+			src, err := static.NewSource(assetsJSON)
+			if err != nil {
+				return nil, err
+			}
+			return engine.NewSessionAssets(envs.NewBuilder().Build(), src, nil)
+		},
+		NewEngine: func() flows.Engine { return serviceEngine(engine.NewBuilder()) },
+		MakeTrigger: func(sa flows.SessionAssets) (flows.Trigger, error) {
+			return triggers.ReadTrigger(sa, trigJSON, assets.IgnoreMissing)
+		},
+		NumResumes: nres,
+		MakeResume: func(sa flows.SessionAssets, i int) (flows.Resume, error) {
+			return resumes.ReadResume(sa, resJSON[i], assets.IgnoreMissing)
+		},
+		Requestor: urlRequestor{},
+		Exempt:    g.used,
+		Batch:     trig["batch"] == true,
+		Input:     map[string]any{"stream": "rich-focused", "assets": json.RawMessage(assetsJSON), "trigger": json.RawMessage(trigJSON), "resumes": resJSON},
+		Tags:      tags,
+	}
 }
